@@ -321,6 +321,7 @@ fn inline_text(inline: &str, j: usize) -> (String, Vec<Item>, bool) {
         "text" => (format!(": gamma{j}"), vec![Item::T(format!("gamma{j}"))], true),
         "padded" => (format!(":    gamma{j}"), vec![Item::T(format!("gamma{j}"))], true),
         "link" => (format!(": {{@link {lt}}} delta{j}"), vec![Item::L(lt.into()), Item::T(format!(" delta{j}"))], true),
+        "textlink" => (format!(": see the {{@link {lt}}} omega{j}"), vec![Item::T("see the ".into()), Item::L(lt.into()), Item::T(format!(" omega{j}"))], true),
         _ => (String::new(), vec![], false),
     }
 }
